@@ -89,13 +89,13 @@ def _f55(spec, sig, msg):
 
 def _f58(spec, sig, msg):
     """swaps with QR involved (QR swap of a graph-built operator, or a graph swap of a QR-built one) when the physical factors are
-    far from 1 in absolute value (some below 1e-8 or above 1e9): structural unit entries sit next to them in one coefficient matrix"""
+    far from 1 in absolute value (some below 1e-8 or above 1e8): structural unit entries sit next to them in one coefficient matrix"""
     import re
     if not spec.get("swaps"):
         return False
     mags = [abs(complex(*t["f"])) for t in spec["terms"]]
     mags = [x for x in mags if x > 0]
-    if not mags or (min(mags) >= 1e-8 and max(mags) <= 1e9):
+    if not mags or (min(mags) >= 1e-8 and max(mags) <= 1e8):
         return False
     m = re.match(r"^(swap|swap_refused_and_wrong)\.(Hopcroft-Karp|Hungarian|qr)(\.exc\.AssertionError@symbolic_mpo\.py:swap_site)?$", sig)
     if not m:
